@@ -416,3 +416,11 @@ pub fn read_tlc_records(path: &str) -> Vec<Value> {
     }
     v
 }
+
+/// Before a call that may take the whole process down (stack overflow, abort) the harness notes what
+/// it is about to do in the file named by VERIF_MARKER, so that the driver can report the case.
+pub fn marker(v: &Value) {
+    if let Ok(p) = std::env::var("VERIF_MARKER") {
+        let _ = std::fs::write(p, v.to_string());
+    }
+}
